@@ -23,8 +23,8 @@ RULE = ("two real dilated wormholes; w.dilate() on each side at a random point (
         "decision traces.")
 ASSUMPTIONS = ["Noise stand-in", "convergence bound: 600 virtual seconds after the last fault (ping interval 5 s)",
                "mailbox control messages are FIFO per sender (plain real server)"]
-FLOORS = {"quick": {"probes": 100000, "connected_cases": 250, "faults": 300, "reconverged": 200, "bulk_cases": 30, "bystander_pairs": 80},
-          "thorough": {"probes": 3000000, "connected_cases": 8000, "faults": 7000, "reconverged": 7000, "bulk_cases": 900, "bystander_pairs": 2000}}
+FLOORS = {"quick": {"probes": 100000, "connected_cases": 250, "faults": 300, "reconverged": 200, "bulk_cases": 30, "bystander_pairs": 80, "one_sided_relay_behind_nat_reconverged": 12},
+          "thorough": {"probes": 3000000, "connected_cases": 8000, "faults": 7000, "reconverged": 7000, "bulk_cases": 900, "bystander_pairs": 2000, "one_sided_relay_behind_nat_reconverged": 400}}
 
 
 def cases(tier, seed, prep=None):
@@ -38,6 +38,10 @@ def cases(tier, seed, prep=None):
     # an application keeps streaming data while the link dies silently (a dead peer acknowledges nothing: the
     # kernel's send buffer fills up and stays full)
     out += [{"seed": seed * 1000003 + 1160000 + i, "relay": False, "nfaults": [1, 1, 2][i % 3], "bulk": "AB"[i % 2]} for i in range(40 if tier == "quick" else 1200)]
+    # only one side is configured with a transit relay and neither side can be dialled directly (both behind NAT): every
+    # generation depends on the peer's relay hint being used again
+    out += [{"seed": seed * 1000003 + 1180000 + i, "relay": True, "relay_sides": [(True, False), (False, True)][i % 2], "nat_both": True,
+             "nfaults": [1, 2, 3, 1][i % 4]} for i in range(32 if tier == "quick" else 900)]
     return out
 
 
@@ -49,8 +53,8 @@ def run_case(spec):
     bad_hosts = [h for h in world.local_addresses[2:] if rng.random() < 0.5]
     for h in bad_hosts:
         (r.refuse if rng.random() < 0.5 else r.unroutable).add(h)
-    dp = DilatedPair(world, relay=spec["relay"], ping_interval=5.0, dilate_now=False,
-                     no_listen=(rng.random() < 0.15, False))
+    dp = DilatedPair(world, relay=spec.get("relay_sides", spec["relay"]), ping_interval=5.0, dilate_now=False,
+                     no_listen=(rng.random() < 0.15, False) if not spec.get("nat_both") else (True, True))
     drv = ScriptDriver(dp, rng, names=("p0",), max_opens=1, max_writes=6, sizes=(1, 100), late_listen=0.0, close_prob=0.0)
     drv.budget["open"] = {"A": 0, "B": 0}
     dilate_gate = {n: rng.choice(["now", "key", "versions", "late"]) for n in "AB"}
@@ -162,7 +166,10 @@ def run_case(spec):
             # so at most one candidate is cut per generation and only while another one is alive
             cands = [l for l in dp.l2_links() if l is not link and all(e.connected for e in l.ends)]
             live = [l for l in dp.l2_links() if all(e.connected for e in l.ends)]
-            if cands and len(live) > 1 and not probes["candidate_cut_this_generation"]:
+            # (through the transit relay one candidate is two links, one leg per side)
+            legs = [l for l in live if l.tags.get("port") == 4001]
+            n_candidates = (len(live) - len(legs)) + len(legs) // 2
+            if cands and n_candidates > 1 and not probes["candidate_cut_this_generation"]:
                 r.cut(rng.choice(cands))
                 probes["candidate_cut_this_generation"] = True
                 faults["done"] += 1
@@ -253,7 +260,7 @@ def run_case(spec):
     return {"violations": viol, "nontrivial": nontrivial,
             "counters": {"probes": probes["n"], "connected_cases": int(probes["connected_once"]), "faults": faults["done"],
                          "faults_skipped": faults["skipped"], "reconverged": int(converged and same_link),
-                         "l2_links": len(dp.l2_links()), "relay_cases": int(spec["relay"]), "bulk_cases": int(bulk["started"]), "bystander_pairs": int(by is not None), "bytewise_cases": int(bool(spec.get("bytewise"))),
+                         "l2_links": len(dp.l2_links()), "relay_cases": int(spec["relay"]), "one_sided_relay_behind_nat_reconverged": int(bool(spec.get("nat_both")) and faults["done"] > 0 and converged and same_link), "bulk_cases": int(bulk["started"]), "bystander_pairs": int(by is not None), "bytewise_cases": int(bool(spec.get("bytewise"))),
                          "bulk_bytes": bulk["obj"].written if bulk["obj"] else 0, "far_end_gone_at_probe": probes["far_end_gone"],
                          **{"fault_" + k: faults["kinds"].count(k) for k in set(faults["kinds"])},
                          "notrans_seen": len(MON.notrans)},
